@@ -515,3 +515,236 @@ Proof.
       + destruct (N.eqb (s_id s) x); inversion E; subst. cbn. lia. }
   change (r_cfg r) with (r_cfg r1). apply meta_publish_wf; assumption.
 Qed.
+
+(** ** Replacing a session record *)
+Lemma find_put_same : forall l c, find_session l (s_id c) <> None -> find_session (put_session l c) (s_id c) = Some c.
+Proof.
+  induction l as [|y l IH]; intros c H; cbn in *; [congruence|].
+  destruct (N.eqb_spec (s_id y) (s_id c)); cbn; [now rewrite N.eqb_refl|].
+  destruct (N.eqb_spec (s_id y) (s_id c)); [contradiction|]. now apply IH.
+Qed.
+
+Lemma find_put_other : forall l c x, x <> s_id c -> find_session (put_session l c) x = find_session l x.
+Proof.
+  induction l as [|y l IH]; intros c x H; cbn; [reflexivity|].
+  destruct (N.eqb_spec (s_id y) (s_id c)) as [E|E]; cbn.
+  - destruct (N.eqb_spec (s_id c) x); [congruence|]. destruct (N.eqb_spec (s_id y) x); [congruence|reflexivity].
+  - destruct (N.eqb (s_id y) x); [reflexivity|]. now apply IH.
+Qed.
+
+Lemma In_put_session : forall l c s, In s (put_session l c) -> In s l \/ (s = c /\ find_session l (s_id c) <> None).
+Proof.
+  induction l as [|y l IH]; intros c s; cbn; [tauto|].
+  destruct (N.eqb_spec (s_id y) (s_id c)) as [E|E]; cbn.
+  - intros [<-|H]; [right; split; [reflexivity|discriminate]|left; now right].
+  - intros [<-|H]; [left; now left|]. destruct (IH c s H) as [H1|[H1 H2]]; [left; now right|right; auto].
+Qed.
+
+Lemma lookup_update : forall r c x, lookup r (s_id c) <> None ->
+    lookup (update_session r c) x = if N.eqb x (s_id c) then Some c else lookup r x.
+Proof.
+  intros r c x H. unfold update_session, lookup in *.
+  destruct (N.eqb_spec (s_id c) meta_id) as [E|E]; cbn [r_meta r_clients r_set_meta r_set_clients].
+  - rewrite E. destruct (N.eqb x meta_id); reflexivity.
+  - destruct (N.eqb_spec x (s_id c)) as [->|Hx].
+    + destruct (N.eqb_spec (s_id c) meta_id); [contradiction|]. now apply find_put_same.
+    + destruct (N.eqb x meta_id); [reflexivity|]. now apply find_put_other.
+Qed.
+
+Lemma update_session_frame : forall r c,
+    r_cfg (update_session r c) = r_cfg r /\ r_testaments (update_session r c) = r_testaments r /\
+    r_broker (update_session r c) = r_broker r /\ r_dealer (update_session r c) = r_dealer r /\
+    r_metaprocs (update_session r c) = r_metaprocs r /\ r_now (update_session r c) = r_now r /\
+    r_pubgen (update_session r c) = r_pubgen r.
+Proof. intros. unfold update_session. destruct (s_id c =? meta_id); repeat split. Qed.
+
+Lemma update_session_wf : forall r c c0 k k',
+    realm_wf r -> lookup r (s_id c) = Some c0 -> s_invgen c0 <= s_invgen c ->
+    realm_wf (update_session r c) /\
+    (ids_below k r -> s_invgen c <= k' -> k <= k' -> ids_below k' (update_session r c)).
+Proof.
+  intros r c c0 k k' W Hl Hle.
+  assert (Ha : lookup r (s_id c) <> None) by congruence.
+  pose proof (lookup_update r c) as LU.
+  destruct (update_session_frame r c) as (F1 & F2 & F3 & F4 & F5 & F6 & F7).
+  assert (Hlle : lookup_le (lookup r) (lookup (update_session r c))).
+  { intros x sx E. rewrite (LU x Ha). destruct (N.eqb_spec x (s_id c)) as [->|Hx].
+    - exists c. split; [reflexivity|]. rewrite Hl in E. inversion E; subst. exact Hle.
+    - exists sx. split; [exact E|lia]. }
+  assert (Hcl : forall x, client r x -> client (update_session r c) x).
+  { intros x C. unfold client, update_session in *. destruct (s_id c =? meta_id); [exact C|].
+    cbn [r_clients r_set_clients]. destruct (N.eq_dec x (s_id c)) as [->|Hx].
+    - rewrite find_put_same; [discriminate|exact C].
+    - now rewrite find_put_other. }
+  split.
+  - destruct W as [A B C D E F G H I J].
+    constructor; rewrite ?F2, ?F3, ?F4; auto.
+    + unfold update_session. destruct (N.eqb_spec (s_id c) meta_id) as [Em|Em]; [exact Em|exact A].
+    + unfold update_session. destruct (N.eqb_spec (s_id c) meta_id) as [Em|Em]; [exact B|].
+      cbn [r_clients r_set_clients]. rewrite find_put_other by congruence. exact B.
+    + intros s Hs. unfold update_session in Hs. destruct (N.eqb_spec (s_id c) meta_id) as [Em|Em]; [now apply C|].
+      cbn [r_clients r_set_clients] in Hs. apply In_put_session in Hs. destruct Hs as [Hs|[-> Hs]]; [now apply C|].
+      destruct (find_session (r_clients r) (s_id c)) as [y|] eqn:Fy; [|congruence].
+      rewrite <- (find_session_id _ _ _ Fy). apply C. eapply find_session_In; eauto.
+    + eapply dealer_wf_lookup_le; [exact Hlle|exact E].
+  - intros (I1 & I2 & I3) Hk Hkk. unfold ids_below. rewrite F3, F4. split; [lia|]. split; [lia|].
+    intros x sx E. rewrite (LU x Ha) in E. destruct (N.eqb x (s_id c)).
+    + inversion E; subst. exact Hk.
+    + specialize (I3 x sx E). lia.
+Qed.
+
+(** ** The meta procedures *)
+Definition caller_opt (details : dict) : option N :=
+  match dget details "caller" with Some v => as_id v | None => None end.
+
+Lemma meta_call_cases : forall r proc det args kw oracle,
+    let r' := realm_of (meta_call r proc det args kw oracle) in
+    r' = r \/
+    (exists sid s dd, find_session (r_clients r) sid = Some s /\ N.eqb sid meta_id = false /\
+                      r' = update_session r (set_details s dd)) \/
+    (exists c p, caller_opt det = Some c /\
+                 (r' = r_set_testaments r (nset (r_testaments r) c p) \/
+                  r' = r_set_testaments r (ndel (r_testaments r) c))).
+Proof.
+  intros r proc det args kw oracle. cbv zeta. unfold meta_call, realm_of, caller_opt.
+  brk; cbn [fst snd];
+    first [ left; reflexivity
+          | right; left; do 3 eexists; split; [eassumption|split; [eassumption|reflexivity]]
+          | right; right; do 2 eexists; split; [reflexivity|left; reflexivity]
+          | right; right; eexists; exists ([], []); split; [reflexivity|right; reflexivity]
+          | right; right; do 2 eexists; split; [reflexivity|right; reflexivity] ].
+Qed.
+
+Lemma meta_call_wf : forall r proc det args kw oracle k,
+    realm_wf r -> ids_below k r ->
+    (forall c, caller_opt det = Some c -> client r c) ->
+    realm_wf (realm_of (meta_call r proc det args kw oracle)) /\
+    ids_below k (realm_of (meta_call r proc det args kw oracle)).
+Proof.
+  intros r proc det args kw oracle k W I Hc.
+  destruct (meta_call_cases r proc det args kw oracle) as [E|[(sid & s & dd & F & Hm & E)|(c & p & Ec & E)]];
+    cbv zeta in E.
+  - rewrite E. auto.
+  - rewrite E. apply N.eqb_neq in Hm.
+    assert (Hl : lookup r (s_id (set_details s dd)) = Some s).
+    { cbn [set_details s_id]. rewrite (find_session_id _ _ _ F). unfold lookup.
+      destruct (N.eqb_spec sid meta_id); [contradiction|exact F]. }
+    destruct (update_session_wf r (set_details s dd) s k k W Hl (N.le_refl _)) as [W' I'].
+    split; [exact W'|]. apply I'; [exact I| |lia].
+    destruct I as (_ & _ & I3). apply (I3 _ _ Hl).
+  - specialize (Hc c Ec).
+    assert (G : forall te, (forall x, nget te x <> None -> x = c \/ nget (r_testaments r) x <> None) ->
+                           NoDup (map fst te) -> realm_wf (r_set_testaments r te) /\ ids_below k (r_set_testaments r te)).
+    { intros te Hk Hn. split; [|exact I]. destruct W as [A B C D E' F G H I' J].
+      constructor; cbn [r_set_testaments r_meta r_clients r_broker r_dealer r_testaments]; auto.
+      intros x Hx. destruct (Hk x Hx) as [->|Hx']; [exact Hc|now apply G]. }
+    destruct E as [E|E]; rewrite E; apply G.
+    + intros x. rewrite ngs. destruct (N.eqb_spec x c); auto.
+    + apply NoDup_nset. apply (rw_test_keys r W).
+    + intros x. rewrite ngd. destruct (N.eqb_spec x c); auto.
+    + apply NoDup_ndel. apply (rw_test_keys r W).
+Qed.
+
+(** ** Dealer operations that only touch the call tables *)
+Lemma dealer_step_wf : forall r d' k,
+    realm_wf r -> ids_below k r -> dealer_wf (lookup r) d' ->
+    d_callee_regs d' = d_callee_regs (r_dealer r) -> d_idgen d' = d_idgen (r_dealer r) ->
+    calls_sub (r_dealer r) d' ->
+    realm_wf (r_set_dealer r d') /\ ids_below k (r_set_dealer r d').
+Proof.
+  intros r d' k W I Wd Ecr Eid S. split.
+  - apply wf_set_dealer; auto.
+    + rewrite Ecr. exact (rw_cr_nonempty r W).
+    + eapply calls_nometa_sub; [exact S|exact (rw_calls_nometa r W)].
+  - destruct I as (I1 & I2 & I3). repeat split; cbn [r_set_dealer r_broker r_dealer]; auto. lia.
+Qed.
+
+Lemma drop_call_cr : forall d c k, d_callee_regs (drop_call d c k) = d_callee_regs d.
+Proof. reflexivity. Qed.
+Lemma drop_call_idgen : forall d c k, d_idgen (drop_call d c k) = d_idgen d.
+Proof. reflexivity. Qed.
+
+Lemma sync_yield_frame : forall d callee req opts args kw,
+    d_callee_regs (fst (sync_yield d callee req opts args kw)) = d_callee_regs d /\
+    d_idgen (fst (sync_yield d callee req opts args kw)) = d_idgen d.
+Proof.
+  intros. unfold sync_yield.
+  destruct (cget (d_invs d) (callee, req)) as [inv|]; [|auto].
+  destruct (opt_bool opts "progress"); cbn [orb].
+  - destruct (cget (d_calls d) (inv_call inv)); auto.
+  - match goal with |- context [cget (d_calls ?D) _] => destruct (cget (d_calls D) (inv_call inv)) end;
+      destruct (inv_inprogress inv); cbn [fst];
+      rewrite ?drop_call_cr, ?drop_call_idgen; cbn [d_callee_regs d_idgen d_set_invs];
+      rewrite ?ct_callee_regs, ?ct_idgen; auto.
+Qed.
+
+Lemma sync_error_frame : forall d callee req det err args kw,
+    d_callee_regs (fst (sync_error d callee req det err args kw)) = d_callee_regs d /\
+    d_idgen (fst (sync_error d callee req det err args kw)) = d_idgen d.
+Proof.
+  intros. unfold sync_error.
+  destruct (cget (d_invs d) (callee, req)) as [inv|]; [|auto].
+  match goal with |- context [cget (d_calls ?D) ?c] => destruct (cget (d_calls D) c) end; cbn [fst];
+    cbn [d_callee_regs d_idgen d_set_invs d_set_bycall d_set_calls]; rewrite ?ct_callee_regs, ?ct_idgen; auto.
+Qed.
+
+Lemma sync_yield_realm_wf : forall r callee req opts args kw k,
+    realm_wf r -> ids_below k r ->
+    realm_wf (r_set_dealer r (fst (sync_yield (r_dealer r) callee req opts args kw))) /\
+    ids_below k (r_set_dealer r (fst (sync_yield (r_dealer r) callee req opts args kw))).
+Proof.
+  intros. destruct (sync_yield_frame (r_dealer r) callee req opts args kw) as [E1 E2].
+  apply dealer_step_wf; auto.
+  - apply sync_yield_wf. apply (rw_dealer r H).
+  - apply sync_yield_core. apply (wf_calls _ _ (rw_dealer r H)).
+Qed.
+
+Lemma sync_error_realm_wf : forall r callee req det err args kw k,
+    realm_wf r -> ids_below k r ->
+    realm_wf (r_set_dealer r (fst (sync_error (r_dealer r) callee req det err args kw))) /\
+    ids_below k (r_set_dealer r (fst (sync_error (r_dealer r) callee req det err args kw))).
+Proof.
+  intros. destruct (sync_error_frame (r_dealer r) callee req det err args kw) as [E1 E2].
+  apply dealer_step_wf; auto.
+  - apply sync_error_wf. apply (rw_dealer r H).
+  - apply sync_error_core. apply (wf_calls _ _ (rw_dealer r H)).
+Qed.
+
+Lemma meta_call_dealer : forall r proc det args kw oracle,
+    r_dealer (realm_of (meta_call r proc det args kw oracle)) = r_dealer r.
+Proof.
+  intros. destruct (meta_call_cases r proc det args kw oracle) as [E|[(sid & s & dd & F & Hm & E)|(c & p & Ec & [E|E])]];
+    cbv zeta in E; rewrite E; try reflexivity.
+  apply update_session_frame.
+Qed.
+
+Lemma run_meta_invocation_wf : forall r o oracle k,
+    realm_wf r -> ids_below k r ->
+    (forall rcv invid regid det args kw, o = [(rcv, RInvocation invid regid det args kw)] ->
+                                          forall c, caller_opt det = Some c -> client r c) ->
+    realm_wf (fst (run_meta_invocation r o oracle)) /\ ids_below k (fst (run_meta_invocation r o oracle)).
+Proof.
+  intros r o oracle k W I Hc. unfold run_meta_invocation.
+  destruct o as [|[rcv m] l]; [auto|]. destruct m; auto. destruct l; [|auto].
+  destruct (negb (rcv =? meta_id)); [auto|].
+  specialize (Hc rcv req reg details args kw eq_refl).
+  destruct (nget (r_metaprocs r) reg) as [proc|].
+  - destruct (meta_call_wf r proc details args kw oracle k W I Hc) as [W1 I1].
+    destruct (meta_call r proc details args kw oracle) as [[r1 resp] kills]. unfold realm_of in *. cbn [fst] in *.
+    assert (G : forall d o1, (d, o1) = match resp with
+                                        | MYield a k0 => sync_yield (r_dealer r1) meta_id req [] a k0
+                                        | MError e => sync_error (r_dealer r1) meta_id req [] e [] []
+                                        end -> realm_wf (r_set_dealer r1 d) /\ ids_below k (r_set_dealer r1 d)).
+    { intros d o1 E. destruct resp.
+      - pose proof (sync_yield_realm_wf r1 meta_id req [] args0 kw0 k W1 I1) as Y.
+        rewrite <- E in Y. exact Y.
+      - pose proof (sync_error_realm_wf r1 meta_id req [] err [] [] k W1 I1) as Y.
+        rewrite <- E in Y. exact Y. }
+    destruct (match resp with MYield a k0 => _ | MError e => _ end) as [d o1].
+    destruct (G d o1 eq_refl) as [W2 I2].
+    destruct kills as [[sids g]|]; [|auto].
+    destruct (kill_sessions_wf sids (r_set_dealer r1 d) g k W2 I2) as [W3 I3].
+    destruct (kill_sessions (r_set_dealer r1 d) sids g). auto.
+  - pose proof (sync_error_realm_wf r meta_id req [] e_no_such_procedure [] [] k W I) as Y.
+    destruct (sync_error (r_dealer r) meta_id req [] e_no_such_procedure [] []). exact Y.
+Qed.
